@@ -49,8 +49,11 @@ CHECKS['C14'] = dict(
          "byte for byte in default AND function-term mode. Theorem C14_unwrapped_atoms_unchanged (all atoms, any number/values of "
          "attributes): an atom without inherited attributes prints identically in both modes. For wrapped groups the property is decided "
          "per program by the oracle: both outputs are parsed with clingo.ast, function terms are flattened and compared argument by "
-         "argument with the default program; one shape per predicate is checked. (A general Coq theorem for wrapped groups - flattening "
-         "the function-mode tree gives the default argument list when groups are contiguous - is not proved yet: partial.)",
+         "argument with the default program; one shape per predicate is checked. Asp/PrintTree.v: C14_function_terms_are_a_tree "
+         "(for any atom, decorated or not, the function-mode text is the text of a tree of groups named after concepts) and "
+         "C14_no_argument_dropped_or_duplicated_partial (the leaves of that tree are a permutation of the atom's arguments: any number of "
+         "attributes, equal values, origin chains of any depth). Not proved: that the leaves come in the ORDER of the default program when "
+         "inherited attributes are adjacent (partial; decided per program by the oracle).",
     note="Trusted: Coq kernel; serialiser of the element tree; clingo.ast as reader of both outputs; inflect results taken from the tree.",
     technique="Coq printer model with byte-exact two-mode correspondence + theorem for unwrapped atoms + clingo.ast flatten oracle",
     design="6.C14")
